@@ -9,7 +9,10 @@ import Nstd.Str.LemmasAlias
   regions for literals / attached memory, slots = String variables + the temporaries the C++ code
   creates).  Specification: `Nstd.Str.Spec` (one byte list per variable).  `run s ops = some s'`
   means: the history `ops` executed from `s` without a fault of the checked memory model and
-  ended in `s'`.  All theorems quantify over every number of variables, every content of the
+  ended in `s'`.  `Good s` is the invariant of the reachable states (heap invariant + empty temporaries):
+  `reach_good` shows every reachable state is `Good`, `good_closed` that `Good` is kept by every call of the
+  model (mutating calls, extended operations, read-only calls with their C string views, own-pointer calls);
+  the theorems assume `Good s` only, so they apply after any mixed history.  All theorems quantify over every number of variables, every content of the
   foreign regions and every history.
 -/
 namespace Nstd.Str
@@ -22,6 +25,65 @@ def Reach (n : Nat) (regs : Nat → List Nat) (s : St) : Prop := ∃ ops, run (i
 theorem reach_good {n : Nat} {regs : Nat → List Nat} {s : St} (r : Reach n regs s) : Good s := by
   obtain ⟨ops, e⟩ := r
   exact good_run (good_init n regs) e
+
+/-- **`Good` is closed under every call of the model**, so the theorems below (which assume `Good s` only — by
+    `reach_good` this covers every reachable state) chain over histories that mix mutating calls, the extended
+    operations, read-only calls (whose C string views change the state) and own-pointer calls: the state after
+    any of them is `Good` again, with the same variables and the same foreign memory. -/
+theorem good_closed {s : St} (g : Good s) :
+    (∀ op s', step s op = some s' → Good s' ∧ s'.n = s.n ∧ s'.regs = s.regs) ∧
+    (∀ toks op x', xstep { st := s, toks := toks } op = some x' → Good x'.st ∧ x'.st.n = s.n ∧ x'.st.regs = s.regs) ∧
+    (∀ v w, validVar s v = true → validVar s w = true → ∀ s',
+      ((∃ nd r, findS s v nd = some (s', r)) ∨ (∃ nd r, findLastS s v nd = some (s', r)) ∨
+       (∃ nd r, findOneOf s v nd = some (s', r)) ∨ (∃ nd r, findLastOf s v nd = some (s', r)) ∨
+       (∃ nd st r, findSFrom s v nd st = some (s', r)) ∨ (∃ nd st r, findOneOfFrom s v nd st = some (s', r)) ∨
+       (∃ c st r, findCFrom s v c st = some (s', r)) ∨ (∃ r, compareS s v w = some (s', r)) ∨
+       (∃ k r, compareN s v w k = some (s', r)) ∨ (∃ r, compareIC s v w = some (s', r)) ∨
+       (∃ k r, compareICN s v w k = some (s', r)) ∨ (∃ r, equalsIC s v w = some (s', r)) ∨
+       (∃ r, toBool s v = some (s', r)) ∨ (∃ r, hash s v = some (s', r)) ∨
+       (∃ seps skip r, split s v seps skip = some (s', r))) →
+      Good s' ∧ s'.n = s.n ∧ s'.regs = s.regs ∧ ∀ u, absVar s' u = absVar s u) ∧
+    (∀ v off len s', validVar s v = true →
+      (appendAlias s v off len = some s' → (∃ L C, Excl s v L C ∧ off + len ≤ L ∧ L + len ≤ C) → Good s') ∧
+      (prependAlias s v off len (userVars s) = some s' → Good s')) := by
+  refine ⟨?_, ?_, ?_, ?_⟩
+  · intro op s' e
+    obtain ⟨_, E, _⟩ := step_ok g e
+    exact ⟨good_step g e, E.n, E.regs⟩
+  · intro toks op x' e
+    obtain ⟨g', r, n', _⟩ := xstep_ok (x := { st := s, toks := toks }) g e
+    exact ⟨g', n', r⟩
+  · intro v w hv hw s' hq
+    obtain ⟨q1, q2, q3, q4, q5, q6, q7, q8, q9, q10, q11, q12, q13, q14, q15⟩ :=
+      queries_silent g.inv (valid_facts hv).1 (valid_facts hw).1
+    have S : Silent s s' := by
+      rcases hq with ⟨a, r, e⟩ | ⟨a, r, e⟩ | ⟨a, r, e⟩ | ⟨a, r, e⟩ | ⟨a, b, r, e⟩ | ⟨a, b, r, e⟩ | ⟨a, b, r, e⟩ |
+        ⟨r, e⟩ | ⟨a, r, e⟩ | ⟨r, e⟩ | ⟨a, r, e⟩ | ⟨r, e⟩ | ⟨r, e⟩ | ⟨r, e⟩ | ⟨a, b, r, e⟩
+      · exact q1 _ _ _ e
+      · exact q2 _ _ _ e
+      · exact q3 _ _ _ e
+      · exact q4 _ _ _ e
+      · exact q5 _ _ _ _ e
+      · exact q6 _ _ _ _ e
+      · exact q7 _ _ _ _ e
+      · exact q8 _ _ e
+      · exact q9 _ _ _ e
+      · exact q10 _ _ e
+      · exact q11 _ _ _ e
+      · exact q12 _ _ e
+      · exact q13 _ _ e
+      · exact q14 _ _ e
+      · exact q15 _ _ _ _ e
+    exact ⟨good_of_silent g S, S.n, S.regs, S.abs⟩
+  · intro v off len s' hv
+    have V := valid_facts hv
+    constructor
+    · intro e ⟨L, C, X, h1, h2⟩
+      obtain ⟨s2, e2, E⟩ := eff_appendAlias_reserved g.inv V.1 X h1 h2
+      rw [e] at e2; injection e2 with e2; subst e2
+      exact good_of_eff g E hv
+    · intro e
+      exact good_of_eff g (eff_prependAlias g.inv V.1 V.2.2.2.2.1 V.2.1 (g.temps _ (Nat.le_refl _)) e) hv
 
 /-- **Reference counts are exact** (the part of the model C09 builds on): in every reachable state the
     count stored in a live block equals the number of String variables pointing at it and is positive
@@ -68,9 +130,9 @@ theorem refines_from_init (n : Nat) (regs : Nat → List Nat) (ops : List Op) (s
 
 /-- **Independence**: a call changes the value of its target variable only — whatever block sharing
     (lazy copies) exists between the variables, and also when an argument is the target itself. -/
-theorem independent {n : Nat} {regs : Nat → List Nat} {s s' : St} (r : Reach n regs s) {op : Op}
+theorem independent {s s' : St} (g : Good s) {op : Op}
     (e : step s op = some s') : ∀ w, w ≠ op.target → absVar s' w = absVar s w := by
-  obtain ⟨_, E, _⟩ := step_ok (reach_good r) e
+  obtain ⟨_, E, _⟩ := step_ok g e
   exact E.other
 
 /-- **Foreign memory is never written**: no call changes a byte of a literal or of attached memory
@@ -92,9 +154,9 @@ theorem foreign_untouched {n : Nat} {regs : Nat → List Nat} {s : St} (r : Reac
 
 /-- **Owned text is always terminated**: in every reachable state a String that owns its block has
     `str[length()] == 0`. -/
-theorem owned_terminated {n : Nat} {regs : Nat → List Nat} {s : St} (r : Reach n regs s) {v b : Nat}
+theorem owned_terminated {s : St} (g : Good s) {v b : Nat}
     (hv : s.vars v = .blk b) : termByte s v = some (some 0) := by
-  have h := (reach_good r).inv
+  have h := g.inv
   obtain ⟨blk, hb⟩ := h.live v b hv
   simp only [termByte, desc_blk hv hb, memOf, hb, Option.bind_eq_bind, Option.bind_some, Option.map_some, Nat.zero_add]
   exact (h.wf b blk hb).2.2
@@ -102,10 +164,9 @@ theorem owned_terminated {n : Nat} {regs : Nat → List Nat} {s : St} (r : Reach
 /-- **The C string view is NUL-terminated at `length()`** — for every variable in every reachable
     state (empty, literal, attached without terminator, owned, shared), and taking the view does not
     change any value. -/
-theorem cstr_terminated {n : Nat} {regs : Nat → List Nat} {s s' : St} (r : Reach n regs s) {v : Nat}
+theorem cstr_terminated {s s' : St} (g : Good s) {v : Nat}
     (e : step s (.cview v) = some s') :
     termByte s' v = some (some 0) ∧ ∀ w, absVar s' w = absVar s w := by
-  have g := reach_good r
   simp only [step] at e
   split at e
   · rename_i c
@@ -121,9 +182,9 @@ theorem cstr_terminated {n : Nat} {regs : Nat → List Nat} {s s' : St} (r : Rea
     `token(const char*, start)` has `start ≤ length()`) performs only in-range loads, branches only on
     initialised chars, stores only into a block the variable owns exclusively and its loops terminate
     (the fuel of `replace` suffices) — for all arguments, including the variable itself. -/
-theorem no_fault {n : Nat} {regs : Nat → List Nat} {s : St} (r : Reach n regs s) {op : Op}
+theorem no_fault {s : St} (g : Good s) {op : Op}
     (va : ValidArgs s op) (dom : (Spec.newVal s.regs (absVar s) op).isSome = true) : ∃ s', step s op = some s' :=
-  step_total_all (reach_good r) va dom
+  step_total_all g va dom
 
 /-- **Specified histories run to the specified state**: a history with valid arguments that the
     specification accepts executes on the model without any fault, and ends with every variable holding
@@ -154,7 +215,7 @@ theorem run_total {s : St} (g : Good s) : ∀ {ops : List Op} {σ' : Nat → Lis
 /-- **No fault, queries**: on variables whose chars are specified and NUL-free the comparisons, the
     searches, `split`, `find(char)` and `operator==` perform no out-of-range or uninitialised read
     (their C string views included) — for any two variables, also the same one twice. -/
-theorem no_fault_queries {n : Nat} {regs : Nat → List Nat} {s : St} (r : Reach n regs s) {v w : Nat}
+theorem no_fault_queries {s : St} (g : Good s) {v w : Nat}
     (hv : validVar s v = true) (hw : validVar s w = true) {a b : List Nat}
     (ha : allSome (absVar s v) = some a) (hb : allSome (absVar s w) = some b)
     (hza : ∀ x ∈ a, x ≠ 0) (hzb : ∀ x ∈ b, x ≠ 0) (k : Nat) (needle : List Nat) (skip : Bool) (c : Nat) :
@@ -162,40 +223,40 @@ theorem no_fault_queries {n : Nat} {regs : Nat → List Nat} {s : St} (r : Reach
     (findS s v needle).isSome ∧ (findLastS s v needle).isSome ∧ (findOneOf s v needle).isSome ∧
     (findLastOf s v needle).isSome ∧ (split s v needle skip).isSome ∧
     (findC s v c).isSome ∧ (findLastC s v c).isSome ∧ (equalS s v w).isSome :=
-  queries_total (reach_good r).inv (valid_facts hv).1 (valid_facts hw).1 ha hb hza hzb k needle skip c
+  queries_total g.inv (valid_facts hv).1 (valid_facts hw).1 ha hb hza hzb k needle skip c
 
 /-- the same for `startsWith`, `endsWith` and the searches with a start index (any `start`) -/
-theorem no_fault_queries_from {n : Nat} {regs : Nat → List Nat} {s : St} (r : Reach n regs s) {v w : Nat}
+theorem no_fault_queries_from {s : St} (g : Good s) {v w : Nat}
     (hv : validVar s v = true) {a b : List Nat} (ha : allSome (absVar s v) = some a)
     (hb : allSome (absVar s w) = some b) (hza : 0 ∉ a) (needle : List Nat) (c st : Nat) :
     (startsWith s v w).isSome ∧ (endsWith s v w).isSome ∧ (findSFrom s v needle st).isSome ∧
     (findOneOfFrom s v needle st).isSome ∧ (findCFrom s v c st).isSome :=
-  queries_total2 (reach_good r).inv (valid_facts hv).1 ha hb hza needle c st
+  queries_total2 g.inv (valid_facts hv).1 ha hb hza needle c st
 
 /-- and for `toBool`, `equalsIgnoreCase`, `hash` — with these every read-only call of the model is covered -/
-theorem no_fault_queries_rest {n : Nat} {regs : Nat → List Nat} {s : St} (r : Reach n regs s) {v w : Nat}
+theorem no_fault_queries_rest {s : St} (g : Good s) {v w : Nat}
     (hv : validVar s v = true) (hw : validVar s w = true) {a b : List Nat}
     (ha : allSome (absVar s v) = some a) (hb : allSome (absVar s w) = some b)
     (hza : ∀ x ∈ a, x ≠ 0) (hzb : ∀ x ∈ b, x ≠ 0) :
     (toBool s v).isSome ∧ (equalsIC s v w).isSome ∧ (hash s v).isSome :=
-  queries_total3 (reach_good r).inv (valid_facts hv).1 (valid_facts hw).1 ha hb hza hzb
+  queries_total3 g.inv (valid_facts hv).1 (valid_facts hw).1 ha hb hza hzb
 
 /-! ### query lemmas: the answers are the libc reference functions applied to the values -/
 
 /-- `find(const char*)`: the first occurrence of the needle in the value (NUL-free, specified chars) -/
-theorem find_spec {n : Nat} {regs : Nat → List Nat} {s s' : St} (r : Reach n regs s) {v : Nat}
+theorem find_spec {s s' : St} (g : Good s) {v : Nat}
     (hv : validVar s v = true) {needle c : List Nat} {res : Option Nat}
     (e : findS s v needle = some (s', res)) (hc : allSome (absVar s v) = some c) (hz : ∀ x ∈ c, x ≠ 0) :
     (∀ w, absVar s' w = absVar s w) ∧ FirstMatch c needle res := by
-  obtain ⟨rfl, ab⟩ := findS_eq (reach_good r).inv (valid_facts hv).1 e hc hz
+  obtain ⟨rfl, ab⟩ := findS_eq g.inv (valid_facts hv).1 e hc hz
   exact ⟨ab, strstr_first c needle⟩
 
 /-- `findLast(const char*)` (repaired, D7): the last occurrence; for the empty needle the offset of the terminator -/
-theorem findLastStr_spec {n : Nat} {regs : Nat → List Nat} {s s' : St} (r : Reach n regs s) {v : Nat}
+theorem findLastStr_spec {s s' : St} (g : Good s) {v : Nat}
     (hv : validVar s v = true) {needle c : List Nat} {res : Option Nat}
     (e : findLastS s v needle = some (s', res)) (hc : allSome (absVar s v) = some c) (hz : ∀ x ∈ c, x ≠ 0) :
     (∀ w, absVar s' w = absVar s w) ∧ LastMatch c needle res ∧ (needle = [] → res = some c.length) := by
-  have g := (reach_good r).inv
+  have g := g.inv
   have V := valid_facts hv
   obtain ⟨lm, ab⟩ := findLastS_eq g V.1 e hc hz
   refine ⟨ab, lm, ?_⟩
@@ -209,26 +270,26 @@ theorem findLastStr_spec {n : Nat} {regs : Nat → List Nat} {s s' : St} (r : Re
   exact findLast_empty_needle _
 
 /-- `findOneOf(const char*)`: the first char of the value that is in the set -/
-theorem findOneOf_spec {n : Nat} {regs : Nat → List Nat} {s s' : St} (r : Reach n regs s) {v : Nat}
+theorem findOneOf_spec {s s' : St} (g : Good s) {v : Nat}
     (hv : validVar s v = true) {chars c : List Nat} {res : Option Nat}
     (e : findOneOf s v chars = some (s', res)) (hc : allSome (absVar s v) = some c) (hz : ∀ x ∈ c, x ≠ 0) :
     (∀ w, absVar s' w = absVar s w) ∧ FirstOf c chars res := by
-  obtain ⟨rfl, ab⟩ := findOneOf_eq (reach_good r).inv (valid_facts hv).1 e hc hz
+  obtain ⟨rfl, ab⟩ := findOneOf_eq g.inv (valid_facts hv).1 e hc hz
   exact ⟨ab, strpbrk_first c chars⟩
 
 /-- `compare(other)`: zero iff the values are equal, negative iff the first is lexicographically smaller
     (unsigned chars) — also when both arguments are the same variable or share a block -/
-theorem compare_spec {n : Nat} {regs : Nat → List Nat} {s s' : St} (r : Reach n regs s) {v w : Nat}
+theorem compare_spec {s s' : St} (g : Good s) {v w : Nat}
     (hv : validVar s v = true) (hw : validVar s w = true) {res : Int} {a b : List Nat}
     (e : compareS s v w = some (s', res)) (ha : allSome (absVar s v) = some a) (hb : allSome (absVar s w) = some b)
     (hza : ∀ x ∈ a, x ≠ 0) (hzb : ∀ x ∈ b, x ≠ 0) :
     (∀ u, absVar s' u = absVar s u) ∧ (res = 0 ↔ a = b) ∧ (res < 0 ↔ a < b) := by
-  obtain ⟨rfl, ab⟩ := compareS_eq (reach_good r).inv (valid_facts hv).1 (valid_facts hw).1 e ha hb hza hzb
+  obtain ⟨rfl, ab⟩ := compareS_eq g.inv (valid_facts hv).1 (valid_facts hw).1 e ha hb hza hzb
   exact ⟨ab, strcmp_eq_zero hza hzb, strcmp_neg hza hzb⟩
 
 /-- `compare(other, n)` compares the first `n` chars; `compareIgnoreCase` compares the ASCII-lowered values:
     zero iff these are equal, negative iff lexicographically smaller -/
-theorem compareN_IC_spec {n : Nat} {regs : Nat → List Nat} {s : St} (r : Reach n regs s) {v w : Nat}
+theorem compareN_IC_spec {s : St} (g : Good s) {v w : Nat}
     (hv : validVar s v = true) (hw : validVar s w = true) {a b : List Nat}
     (ha : allSome (absVar s v) = some a) (hb : allSome (absVar s w) = some b)
     (hza : ∀ x ∈ a, x ≠ 0) (hzb : ∀ x ∈ b, x ≠ 0) :
@@ -236,7 +297,7 @@ theorem compareN_IC_spec {n : Nat} {regs : Nat → List Nat} {s : St} (r : Reach
       (res = 0 ↔ a.take k = b.take k) ∧ (res < 0 ↔ a.take k < b.take k)) ∧
     (∀ s' res, compareIC s v w = some (s', res) →
       (res = 0 ↔ a.map toLower = b.map toLower) ∧ (res < 0 ↔ a.map toLower < b.map toLower)) := by
-  have g := (reach_good r).inv
+  have g := g.inv
   have V := valid_facts hv
   have W := valid_facts hw
   constructor
@@ -254,29 +315,29 @@ theorem compareN_IC_spec {n : Nat} {regs : Nat → List Nat} {s : St} (r : Reach
     exact ⟨strcmp_eq_zero h1 h2, strcmp_neg h1 h2⟩
 
 /-- `equalsIgnoreCase`: true iff the ASCII-lowered values are equal -/
-theorem equalsIgnoreCase_spec {n : Nat} {regs : Nat → List Nat} {s s' : St} (r : Reach n regs s) {v w : Nat}
+theorem equalsIgnoreCase_spec {s s' : St} (g : Good s) {v w : Nat}
     (hv : validVar s v = true) (hw : validVar s w = true) {res : Bool} {a b : List Nat}
     (e : equalsIC s v w = some (s', res)) (ha : allSome (absVar s v) = some a) (hb : allSome (absVar s w) = some b)
     (hza : ∀ x ∈ a, x ≠ 0) (hzb : ∀ x ∈ b, x ≠ 0) :
     (res = true ↔ a.map toLower = b.map toLower) ∧ ∀ u, absVar s' u = absVar s u :=
-  equalsIC_eq (reach_good r).inv (valid_facts hv).1 (valid_facts hw).1 e ha hb hza hzb
+  equalsIC_eq g.inv (valid_facts hv).1 (valid_facts hw).1 e ha hb hza hzb
 
 /-- `toBool()`: false exactly for "", "0", "false" in any letter case, and for zeros around a single
     decimal point with at least one zero; true for every other value -/
-theorem toBool_state_spec {n : Nat} {regs : Nat → List Nat} {s s' : St} (r : Reach n regs s) {v : Nat}
+theorem toBool_state_spec {s s' : St} (g : Good s) {v : Nat}
     (hv : validVar s v = true) {res : Bool} {c : List Nat}
     (e : toBool s v = some (s', res)) (hc : allSome (absVar s v) = some c) (hz : ∀ x ∈ c, x ≠ 0) :
     (res = false ↔ toBoolFalse c) ∧ ∀ u, absVar s' u = absVar s u :=
-  toBool_eq (reach_good r).inv (valid_facts hv).1 e hc hz
+  toBool_eq g.inv (valid_facts hv).1 e hc hz
 
 /-- `compareIgnoreCase(other, n)`: the comparison of the first `n` ASCII-lowered chars -/
-theorem compareICN_spec {n : Nat} {regs : Nat → List Nat} {s s' : St} (r : Reach n regs s) {v w : Nat}
+theorem compareICN_spec {s s' : St} (g : Good s) {v w : Nat}
     (hv : validVar s v = true) (hw : validVar s w = true) {res : Int} {k : Nat} {a b : List Nat}
     (e : compareICN s v w k = some (s', res)) (ha : allSome (absVar s v) = some a)
     (hb : allSome (absVar s w) = some b) (hza : ∀ x ∈ a, x ≠ 0) (hzb : ∀ x ∈ b, x ≠ 0) :
     (res = 0 ↔ (a.map toLower).take k = (b.map toLower).take k) ∧
     (res < 0 ↔ (a.map toLower).take k < (b.map toLower).take k) ∧ ∀ u, absVar s' u = absVar s u := by
-  obtain ⟨rfl, ab⟩ := compareICN_eq (reach_good r).inv (valid_facts hv).1 (valid_facts hw).1 e ha hb hza hzb
+  obtain ⟨rfl, ab⟩ := compareICN_eq g.inv (valid_facts hv).1 (valid_facts hw).1 e ha hb hza hzb
   have h1 : ∀ x ∈ (a.map toLower).take k, x ≠ 0 := by
     intro x hx; obtain ⟨y, hy, rfl⟩ := List.mem_map.mp (List.mem_of_mem_take hx); exact toLower_ne_zero (hza y hy)
   have h2 : ∀ x ∈ (b.map toLower).take k, x ≠ 0 := by
@@ -285,14 +346,14 @@ theorem compareICN_spec {n : Nat} {regs : Nat → List Nat} {s s' : St} (r : Rea
 
 /-- `hash(const String&)`: the 64-bit mix `hashL` of the length and the chars `s[0]`, `s[len/2]`, `s[len-1]`
     (signed chars) of the value; it depends on nothing else, and taking it changes no value -/
-theorem hash_spec {n : Nat} {regs : Nat → List Nat} {s s' : St} (r : Reach n regs s) {v : Nat}
+theorem hash_spec {s s' : St} (g : Good s) {v : Nat}
     (hv : validVar s v = true) {res : Nat} {a : List Nat} (e : hash s v = some (s', res))
     (ha : allSome (absVar s v) = some a) :
     res = hashL a.length (a ++ [0]) ∧ (∀ u, absVar s' u = absVar s u) ∧
     ∀ b : List Nat, a.length = b.length → a.getD 0 0 = b.getD 0 0 →
       a.getD (a.length / 2) 0 = b.getD (a.length / 2) 0 → a.getD (a.length - 1) 0 = b.getD (a.length - 1) 0 →
       res = hashL b.length (b ++ [0]) := by
-  obtain ⟨rfl, ab⟩ := hash_eq (reach_good r).inv (valid_facts hv).1 e ha
+  obtain ⟨rfl, ab⟩ := hash_eq g.inv (valid_facts hv).1 e ha
   exact ⟨rfl, ab, fun b hl h0 hm he => hashL_depends a b hl h0 hm he⟩
 
 /-- the case maps of the current String.cpp (regenerated by tools/gen_str.py on every run): `toLowerCase`
@@ -300,6 +361,45 @@ theorem hash_spec {n : Nat} {regs : Nat → List Nat} {s s' : St} (r : Reach n r
 theorem case_maps : (∀ c, c < 256 → toLower c = if 65 ≤ c ∧ c ≤ 90 then c + 32 else c) ∧
     (∀ c, c < 256 → toUpper c = if 97 ≤ c ∧ c ≤ 122 then c - 32 else c) :=
   ⟨lower_map, upper_map⟩
+
+/-- **`token(separator, start)` — the iteration contract.**  On a specified NUL-free value `c` of `w` the call
+    `v = w.token(sep, start)` gives `v` the chars from `start` up to the first separator (or the rest), changes no
+    other value, and leaves `start` = index behind that separator, or `length()` when there is none (also when
+    `start ≥ length()` for the char form; the `const char*` form requires `start ≤ length()`). -/
+theorem token_spec {s : St} (g : Good s) {v w : Nat} (hv : validVar s v = true) (hw : validVar s w = true)
+    {c : List Nat} (hc : allSome (absVar s w) = some c) (hz : 0 ∉ c) (st : Nat) :
+    (∀ sep s' r, tokenC s v w sep st (userVars s) = some (s', r) →
+      r = (if st ≥ c.length then c.length else Spec.tokenNext c st (strchrL (c.drop st) sep)) ∧
+      Eff s s' v ((if st ≥ c.length then [] else Spec.tokenL c st (strchrL (c.drop st) sep)).map some)) ∧
+    (∀ seps s' r, st ≤ c.length → tokenS s v w seps st (userVars s) = some (s', r) →
+      r = Spec.tokenNext c st (strpbrkL (c.drop st) seps) ∧
+      Eff s s' v ((Spec.tokenL c st (strpbrkL (c.drop st) seps)).map some)) := by
+  have V := valid_facts hv
+  have W := valid_facts hw
+  have t0 := g.temps _ (Nat.le_refl (userVars s))
+  exact ⟨fun sep s' r e => ⟨tokenC_start g.inv W.1 hc hz e,
+      eff_tokenC g.inv V.1 W.1 V.2.2.2.2.1 V.2.1 t0 hc hz e⟩,
+    fun seps s' r hst e => ⟨tokenS_start g.inv W.1 hc hz hst e,
+      eff_tokenS g.inv V.1 W.1 V.2.2.2.2.1 V.2.1 t0 hc hz hst e⟩⟩
+
+/-- … and iterating it: `start = 0; while(start < length()) tokens += token(seps, start);` (`Spec.tokenIter`,
+    built from exactly the token value and the new `start` of `token_spec`) delivers the pieces `split` delivers
+    without `skipEmpty` (`splitRef`), except a final empty piece (behind a trailing separator / of the empty
+    string), which the loop condition cuts off. -/
+theorem token_iteration_spec (seps c : List Nat) :
+    Spec.tokenIter seps c (c.length + 1) 0 = dropLastEmpty (Spec.splitRef seps c) :=
+  token_iteration seps c
+
+/-- **`substr(start, length)`, stated independently of the model's arithmetic**: a negative `start` counts
+    from the end (clamped to 0), a `start` behind the end is the end; a negative `length` means "to the end",
+    otherwise the end is `start + length` clamped to `length()`.  (`Spec.newVal (.substr …)` is `subList`.) -/
+theorem substr_spec (c : List Byte) (st ln : Int) :
+    subList c st ln =
+      (c.drop (if st < 0 then max 0 ((c.length : Int) + st) else min st c.length).toNat).take
+        ((if ln < 0 then (c.length : Int)
+          else min (c.length : Int) ((if st < 0 then max 0 ((c.length : Int) + st) else min st c.length) + ln)).toNat
+         - (if st < 0 then max 0 ((c.length : Int) + st) else min st c.length).toNat) :=
+  subList_spec c st ln
 
 /-- the range `trim` keeps (as computed by the two scanning loops of the C++ code) is the value
     without its leading and trailing chars of the set -/
@@ -312,47 +412,59 @@ theorem trim_spec (chars c : List Nat) :
 
 /-- `split(tokens, separators, skipEmpty)`: the tokens are the pieces of the value between separator
     chars (`splitRef`), all of them or — with `skipEmpty` — the non-empty ones; the value is unchanged -/
-theorem split_spec {n : Nat} {regs : Nat → List Nat} {s s' : St} (r : Reach n regs s) {v : Nat}
+theorem split_spec {s s' : St} (g : Good s) {v : Nat}
     (hv : validVar s v = true) {seps c : List Nat} {skip : Bool} {toks : List (List Byte)}
     (e : split s v seps skip = some (s', toks)) (hc : allSome (absVar s v) = some c) (hz : ∀ x ∈ c, x ≠ 0) :
     toks = splitOut skip (splitRef seps c) ∧ ∀ w, absVar s' w = absVar s w :=
-  split_eq (reach_good r).inv (valid_facts hv).1 e hc hz
+  split_eq g.inv (valid_facts hv).1 e hc hz
 
-/-- `find(char)` / `findLast(char)`: first / last index holding the char -/
-theorem findChar_spec {n : Nat} {regs : Nat → List Nat} {s : St} (r : Reach n regs s) {v c : Nat} {a : List Nat}
+/-- `find(char)` / `findLast(char)`: first / last index holding the char; `findLast(char)` finds nothing
+    exactly when the char does not occur -/
+theorem findChar_spec {s : St} (g : Good s) {v c : Nat} {a : List Nat}
     (ha : allSome (absVar s v) = some a) :
     (∀ res, findC s v c = some res → res = a.findIdx? (· == c)) ∧
     (∀ res i, findLastC s v c = some res → res = some i →
-      ∃ hi : i < a.length, a[i] = c ∧ ∀ j (hj : j < a.length), i < j → a[j] ≠ c) := by
-  have g := (reach_good r).inv
-  refine ⟨fun res e => findC_eq g e ha, ?_⟩
-  intro res i e hi
-  have := findLastC_eq g e ha
-  rw [hi] at this
-  exact findLastIdx_some this.symm
+      ∃ hi : i < a.length, a[i] = c ∧ ∀ j (hj : j < a.length), i < j → a[j] ≠ c) ∧
+    (∀ res, findLastC s v c = some res → res = none → c ∉ a) ∧
+    (∀ res, findLastC s v c = some res → c ∈ a → ∃ i, res = some i) := by
+  have g := g.inv
+  refine ⟨fun res e => findC_eq g e ha, ?_, ?_, ?_⟩
+  · intro res i e hi
+    have := findLastC_eq g e ha
+    rw [hi] at this
+    exact findLastIdx_some this.symm
+  · intro res e hn
+    have := findLastC_eq g e ha
+    rw [hn] at this
+    exact findLastIdx_none this.symm
+  · intro res e hc
+    have := findLastC_eq g e ha
+    cases res with
+    | some i => exact ⟨i, rfl⟩
+    | none => exact absurd hc (findLastIdx_none this.symm)
 
 /-- `operator==` and `startsWith` decide equality / the prefix relation of the values, whatever blocks
     the two variables share (they may be the same variable) -/
-theorem equal_startsWith_spec {n : Nat} {regs : Nat → List Nat} {s : St} (r : Reach n regs s) {v w : Nat}
+theorem equal_startsWith_spec {s : St} (g : Good s) {v w : Nat}
     {a b : List Nat} (ha : allSome (absVar s v) = some a) (hb : allSome (absVar s w) = some b) :
     (∀ res, equalS s v w = some res → (res = true ↔ a = b)) ∧
     (∀ res, startsWith s v w = some res → (res = true ↔ b <+: a)) :=
-  ⟨fun _ e => equalS_eq (reach_good r).inv e ha hb, fun _ e => startsWith_eq (reach_good r).inv e ha hb⟩
+  ⟨fun _ e => equalS_eq g.inv e ha hb, fun _ e => startsWith_eq g.inv e ha hb⟩
 
 /-- `endsWith` decides the suffix relation of the values; `findLastOf(chars)` returns the last char of the
     value that is in the set -/
-theorem endsWith_findLastOf_spec {n : Nat} {regs : Nat → List Nat} {s : St} (r : Reach n regs s) {v w : Nat}
+theorem endsWith_findLastOf_spec {s : St} (g : Good s) {v w : Nat}
     (hv : validVar s v = true) {a b : List Nat} (ha : allSome (absVar s v) = some a)
     (hb : allSome (absVar s w) = some b) (hza : ∀ x ∈ a, x ≠ 0) :
     (∀ res, endsWith s v w = some res → (res = true ↔ b <:+ a)) ∧
     (∀ chars s' res, findLastOf s v chars = some (s', res) → LastOf a chars res ∧ ∀ u, absVar s' u = absVar s u) :=
-  ⟨fun _ e => endsWith_eq (reach_good r).inv e ha hb,
-   fun _ _ _ e => findLastOf_eq (reach_good r).inv (valid_facts hv).1 e ha hza⟩
+  ⟨fun _ e => endsWith_eq g.inv e ha hb,
+   fun _ _ _ e => findLastOf_eq g.inv (valid_facts hv).1 e ha hza⟩
 
 /-- `find(str, start)`, `findOneOf(chars, start)`, `find(char, start)`: nothing is found at or behind the end,
     otherwise the search runs over the rest of the value from `start` and the offset is counted from the
     beginning (`find(char, start)` with the NUL char finds the terminator) -/
-theorem findFrom_spec {n : Nat} {regs : Nat → List Nat} {s : St} (r : Reach n regs s) {v : Nat}
+theorem findFrom_spec {s : St} (g : Good s) {v : Nat}
     (hv : validVar s v = true) {c : List Nat} (hc : allSome (absVar s v) = some c) (hz : 0 ∉ c)
     (needle : List Nat) (ch st : Nat) :
     (∀ s' res, findSFrom s v needle st = some (s', res) →
@@ -361,7 +473,7 @@ theorem findFrom_spec {n : Nat} {regs : Nat → List Nat} {s : St} (r : Reach n 
       res = (if st ≥ c.length then none else (strpbrkL (c.drop st) needle).map (· + st)) ∧ ∀ w, absVar s' w = absVar s w) ∧
     (∀ s' res, findCFrom s v ch st = some (s', res) →
       res = (if st ≥ c.length then none else (strchrL (c.drop st) ch).map (· + st)) ∧ ∀ w, absVar s' w = absVar s w) := by
-  have g := (reach_good r).inv
+  have g := g.inv
   have V := valid_facts hv
   obtain ⟨a, b⟩ := findFrom_eq g V.1 hc hz needle st
   refine ⟨a, b, ?_⟩
@@ -397,19 +509,18 @@ theorem xrefines (n : Nat) (regs : Nat → List Nat) (ops : List XOp) (x : XSt)
 
 /-- `s.prepend((const char*)s + off, len)` is nevertheless safe and gives the expected value: the local
     `String copy(*this)` keeps the old storage alive while it is read -/
-theorem prepend_alias_safe {n : Nat} {regs : Nat → List Nat} {s s' : St} (r : Reach n regs s) {v off len : Nat}
+theorem prepend_alias_safe {s s' : St} (g : Good s) {v off len : Nat}
     (hv : validVar s v = true) (e : prependAlias s v off len (userVars s) = some s') :
     Eff s s' v (((absVar s v).drop off).take len ++ absVar s v) := by
-  have g := reach_good r
   have V := valid_facts hv
   exact eff_prependAlias g.inv V.1 V.2.2.2.2.1 V.2.1 (g.temps _ (Nat.le_refl _)) e
 
 /-- `s.append((const char*)s + off, len)` is safe when nothing is reallocated: `s` owns its block exclusively
     and the capacity suffices (e.g. after `reserve`) -/
-theorem append_alias_reserved {n : Nat} {regs : Nat → List Nat} {s : St} (r : Reach n regs s) {v off len L C : Nat}
+theorem append_alias_reserved {s : St} (g : Good s) {v off len L C : Nat}
     (hv : validVar s v = true) (X : Excl s v L C) (hol : off + len ≤ L) (hC : L + len ≤ C) :
     ∃ s', appendAlias s v off len = some s' ∧ Eff s s' v (absVar s v ++ ((absVar s v).drop off).take len) :=
-  eff_appendAlias_reserved (reach_good r).inv (valid_facts hv).1 X hol hC
+  eff_appendAlias_reserved g.inv (valid_facts hv).1 X hol hC
 
 /-- … and it is a use-after-free otherwise: `String s("abcd", 4); s.append((const char*)s, 4)` reallocates,
     deletes the block and then copies from it (fault of the model; heap-use-after-free of the real code) —
@@ -451,6 +562,12 @@ example : ∃ s, Reach 7 exampleRegs s ∧ absVar s 3 = [some 65, some 66, some 
     (by rw [h0]; rfl)
   refine ⟨s, ⟨exampleProg, hr⟩, ?_, foreign_untouched ⟨exampleProg, hr⟩⟩
   rw [hw 3]; decide
+
+example : subList [some 97, some 98, some 99, some 100] (-2) (-1) = [some 99, some 100] ∧
+    subList [some 97, some 98, some 99] 1 5 = [some 98, some 99] ∧ subList [some 97] 7 (-1) = [] := by decide
+
+example : Spec.tokenIter [47] [97, 47, 47, 98, 47] 6 0 = [[97], [], [98]] ∧
+    Spec.splitRef [47] [97, 47, 47, 98, 47] = [[97], [], [98], []] := by decide
 
 example : strstrL [97, 98, 97, 98] [98, 97] = some 1 ∧ findLastLoop [97, 98, 97, 98] [97, 98] 5 0 none = some 2 ∧
     findLastLoop [97, 98] [] 3 0 none = some 2 ∧ strcmpL [97, 98] [97, 128] < 0 := by decide
